@@ -52,7 +52,7 @@ func genC11(rt *rapid.T) pdCase {
 	for i := 0; i < n; i++ {
 		l := fmt.Sprintf("s%d", i)
 		st := pdStep{
-			Kind: rapid.SampledFrom([]string{"poll", "poll", "poll", "post", "post", "postBlocked", "postBlocked", "release", "release", "abortPoll", "abortPost", "postWhileHandlerBusy", "appSend", "appSend", "appClose", "wait", "heartbeat"}).Draw(rt, l+".kind"),
+			Kind: rapid.SampledFrom([]string{"poll", "poll", "poll", "post", "post", "postBlocked", "postBlocked", "release", "release", "abortPoll", "abortPost", "postWhileHandlerBusy", "appSend", "appSend", "appClose", "wait", "heartbeat", "postClose", "postWrongHeartbeat"}).Draw(rt, l+".kind"),
 			Sess: rapid.IntRange(0, c.NSess-1).Draw(rt, l+".sess"),
 			N:    rapid.IntRange(1, 5).Draw(rt, l+".n"),
 		}
@@ -282,6 +282,43 @@ func runC11(c pdCase) (fail string, stats map[string]bool) {
 					stats["multi-packet-ack"] = true
 				}
 			}
+		case "postClose", "postWrongHeartbeat":
+			// the client ends the session itself: N-1 messages, then a close packet (and one more message that
+			// must not be delivered); or a heartbeat packet travelling in the wrong direction for the revision
+			if s.closed || s.post != nil {
+				break
+			}
+			pkts := mkMsgs(s, st.N-1)
+			body := append([]Pkt{}, pkts...)
+			if st.Kind == "postClose" {
+				body = append(body, ctl(tClose))
+				if st.Block%2 == 0 {
+					body = append(body, msgT("after-close"))
+				}
+			} else if c.Rev == 4 {
+				body = append(body, ctl(tPing))
+			} else {
+				body = append(body, ctl(tPong))
+			}
+			hadPoll := s.poll != nil && !s.poll.Snap().Responded
+			e := pc.StartPost(body, false)
+			s.inPost = e
+			Settle()
+			s.inPost = nil
+			s.accepted = append(s.accepted, e)
+			s.wantMsgs = append(s.wantMsgs, pkts...)
+			if st.Kind == "postClose" {
+				closeCause(s, "transport close")
+				if hadPoll {
+					stats["client-close-packet-with-poll-pending"] = true
+				}
+			} else {
+				closeCause(s, "transport error")
+				if hadPoll {
+					stats["wrong-heartbeat-with-poll-pending"] = true
+				}
+			}
+			pc.Poll = nil
 		case "postWhileHandlerBusy":
 			// the first request's body has been read completely, its message listener is still running
 			if s.closed || s.post != nil {
@@ -484,7 +521,7 @@ func runC11(c pdCase) (fail string, stats map[string]bool) {
 
 func TestC11PollingDiscipline(t *testing.T) {
 	col := NewCollector("TestC11PollingDiscipline",
-		"rapid: 1-3 polling/JSONP sessions (revision 3/4) and 2-14 steps: poll (also while one is pending), data request with 1-5 packets (also while another one's body is stalled at a drawn byte offset by the instrumented request body), release of the stalled body, abort of the pending poll / of the stalled upload, application Send, Close(false), waits (1ms..30s); oracle per request record: at most one status line and no write after the handler returned, handler returns iff answered; an overlapping request is answered 400 and the session closes with 'transport error'; other sessions are unaffected; a pending poll is answered no later than the session's close event; a data request is acknowledged 200 'ok' only after every message of its payload was delivered (checked from inside the message event) and never while its body is still being uploaded; delivered messages == payloads processed. non-trivial: a history with an overlap or an abort").Use(t)
+		"rapid: 1-3 polling/JSONP sessions (revision 3/4) and 2-14 steps: poll (also while one is pending), data request with 1-5 packets (also while another one's body is stalled at a drawn byte offset by the instrumented request body), release of the stalled body, abort of the pending poll / of the stalled upload, a data request that carries a close packet or a wrong-direction heartbeat (with or without a poll pending), application Send, Close(false), waits (1ms..30s); oracle per request record: at most one status line and no write after the handler returned, handler returns iff answered; an overlapping request is answered 400 and the session closes with 'transport error'; other sessions are unaffected; a pending poll is answered no later than the session's close event; a data request is acknowledged 200 'ok' only after every message of its payload was delivered (checked from inside the message event) and never while its body is still being uploaded; delivered messages == payloads processed. non-trivial: a history with an overlap or an abort").Use(t)
 	rapid.Check(t, func(rt *rapid.T) {
 		c := genC11(rt)
 		journal("C11 %v", c)
@@ -506,7 +543,7 @@ func TestC11PollingDiscipline(t *testing.T) {
 			rt.Fatalf("%v: %s", c, clipStr(res.Leak, 1500))
 		}
 	})
-	col.RequireClasses(t, "overlapping-poll", "overlapping-data-request", "aborted-poll", "aborted-data-request", "stalled-body-released", "poll-released-by-close", "poll-answered-by-send", "multi-packet-ack", "undisturbed-session-ok", "request-after-close", "data-request-while-handler-busy")
+	col.RequireClasses(t, "overlapping-poll", "overlapping-data-request", "aborted-poll", "aborted-data-request", "stalled-body-released", "poll-released-by-close", "poll-answered-by-send", "multi-packet-ack", "undisturbed-session-ok", "request-after-close", "data-request-while-handler-busy", "client-close-packet-with-poll-pending", "wrong-heartbeat-with-poll-pending")
 }
 
 const sigTruncatedUpload = "aborted-upload-truncated-payload-processed"
